@@ -6,6 +6,54 @@ import Verif.Proofs.Refine.Rr
 namespace Verif
 open Verif.Spec
 
+namespace Rr
+
+/-- the slot invariant holds at every point of every run from the initial state -/
+theorem inv_run {cap : Nat} (hcap : 0 < cap) {rnd : List Nat} (hr : ∀ r ∈ rnd, r < cap)
+    {tr : STrace RrState} {s : RrState} (hrun : CRun Rr.core (Rr.init cap rnd) tr s) :
+    Inv cap s := by
+  have := CRun.invariant (c := Rr.core) (P := fun _ s => Inv cap s) (pre := [])
+    (fun _ s now x s' h hs => (Refines.cstep (Rr.refines cap) (now := now) h hs).1)
+    (inv_init hcap rnd hr) hrun
+  exact this
+
+/-- inversion of an `ins` step -/
+theorem cstep_ins_inv {σ : Type} {c : Core σ} {s s' : σ} {now : Time} {k : Key} {v : Val}
+    {al : Allow} {d : Time} {ok : Bool} (h : CStep c s now (.ins k v al d ok) s') :
+    ∃ ttl, s' = (c.insert1 s now k v al ttl).1 ∧ ok = (c.insert1 s now k v al ttl).2 := by
+  generalize hx : Atom.ins k v al d ok = x at h
+  cases h with
+  | ins k' v' a' ttl =>
+    injection hx with h1 h2 h3 h4 h5
+    subst h1 h2 h3
+    exact ⟨ttl, rfl, h5⟩
+  | _ => cases hx
+
+/-- a function whose image list is duplicate-free is injective on the list -/
+theorem eq_of_nodup_map {α β : Type} (f : α → β) {l : List α} (hn : (l.map f).Nodup)
+    {a b : α} (ha : a ∈ l) (hb : b ∈ l) (hab : f a = f b) : a = b := by
+  induction l with
+  | nil => cases ha
+  | cons x t ih =>
+    simp only [List.map_cons, List.nodup_cons] at hn
+    rcases List.mem_cons.mp ha with rfl | ha' <;> rcases List.mem_cons.mp hb with rfl | hb'
+    · rfl
+    · exact absurd (hab ▸ List.mem_map_of_mem (f := f) hb') hn.1
+    · exact absurd (hab ▸ List.mem_map_of_mem (f := f) ha') hn.1
+    · exact ih hn.2 ha' hb'
+
+/-- in a full cache there is no free slot and the resident slot ids are exactly `0 .. cap-1` -/
+theorem full_perm {cap : Nat} {s : RrState} (h : Inv cap s) (hfull : cap ≤ s.ents.length) :
+    s.free = [] ∧ List.Perm (slots s.ents) (List.range cap) := by
+  have hlen := h.len
+  have hfree : s.free = [] := by
+    apply List.eq_nil_of_length_eq_zero; omega
+  have hp := h.perm
+  rw [hfree, List.append_nil] at hp
+  exact ⟨hfree, hp⟩
+
+end Rr
+
 /-- **C15 (legality).** When an accepted insert of a new key finds the cache full it consumes one
 outcome `r` of the random source (`r < cap`) and removes exactly the resident entry stored in slot
 `r` — a prior resident, never the key being inserted. -/
@@ -16,7 +64,37 @@ theorem C15_rr_victim (cap : Nat) (hcap : 0 < cap) (rnd : List Nat) (hr : ∀ r 
     (hnew : k ∉ keys s.ents) (hfull : cap ≤ s.ents.length) :
     ∃ e, Rr.atSlot s.ents (s.rnd.headD 0) = some e ∧ Evicts (keys s.ents) (keys s'.ents) k e.key ∧
       s'.rnd = s.rnd.tail ∧ s.rnd.headD 0 < cap := by
-  sorry
+  have h := Rr.inv_run hcap hr hrun
+  obtain ⟨hfree, hperm⟩ := Rr.full_perm h hfull
+  have hlt : s.rnd.headD 0 < cap := by
+    cases hrl : s.rnd with
+    | nil => exact hcap
+    | cons r t => exact h.rnd_lt r (by rw [hrl]; exact List.mem_cons_self)
+  have hmem : s.rnd.headD 0 ∈ Rr.slots s.ents := hperm.mem_iff.mpr (List.mem_range.mpr hlt)
+  obtain ⟨e, hat, hel, _⟩ := Rr.atSlot_some_of_mem hmem
+  obtain ⟨ttl, hs', hok⟩ := Rr.cstep_ins_inv hstep
+  have hg : getE s.ents k = none := getE_eq_none_iff.mpr hnew
+  have hfull' : s.ents.length ≥ s.cap := by rw [h.cap_eq]; exact hfull
+  have hek : e.key ∈ keys s.ents := List.mem_map_of_mem (f := (·.key)) hel
+  have hne : e.key ≠ k := fun hh => hnew (hh ▸ hek)
+  simp only [Rr.core, Rr.insert1, hg] at hs' hok
+  by_cases ha : al.ins = true
+  · simp only [ha, if_true, hfull', Rr.prune, hat] at hs'
+    subst hs'
+    refine ⟨e, hat, ⟨hek, hne, ?_, ?_⟩, rfl, hlt⟩
+    · show e.key ∉ keys (delE s.ents e.key ++ [_])
+      rw [keys_append]
+      intro hm
+      rcases List.mem_append.mp hm with hm | hm
+      · exact (mem_keys_delE.mp hm).2 rfl
+      · simp only [keys, List.map_cons, List.map_nil, List.mem_singleton] at hm
+        exact hne hm
+    · intro u hu huw
+      show u ∈ keys (delE s.ents e.key ++ [_])
+      rw [keys_append]
+      exact List.mem_append_left _ (mem_keys_delE.mpr ⟨hu, huw⟩)
+  · simp only [ha, Bool.false_eq_true, if_false] at hok
+    cases hok
 
 /-- **C15 (spread).** In a full cache, slot ↦ resident is a bijection between `[0, cap)` and the resident
 entries: every outcome of the random source names exactly one resident and every resident is named
@@ -26,6 +104,15 @@ theorem C15_rr_bijection (cap : Nat) (hcap : 0 < cap) (rnd : List Nat) (hr : ∀
     (hrun : CRun Rr.core (Rr.init cap rnd) tr s) (hfull : cap ≤ s.ents.length) :
     (∀ r, r < cap → ∃ e, e ∈ s.ents ∧ e.slot = r ∧ ∀ e' ∈ s.ents, e'.slot = r → e' = e) ∧
     (∀ e ∈ s.ents, e.slot < cap) := by
-  sorry
-
-end Verif
+  have h := Rr.inv_run hcap hr hrun
+  obtain ⟨_, hperm⟩ := Rr.full_perm h hfull
+  have hnd : (s.ents.map (·.slot)).Nodup := hperm.nodup_iff.mpr List.nodup_range
+  refine ⟨?_, ?_⟩
+  · intro r hlt
+    have hmem : r ∈ Rr.slots s.ents := hperm.mem_iff.mpr (List.mem_range.mpr hlt)
+    obtain ⟨e, _, hel, hes⟩ := Rr.atSlot_some_of_mem hmem
+    refine ⟨e, hel, hes, ?_⟩
+    intro e' he' hs'
+    exact Rr.eq_of_nodup_map (·.slot) hnd he' hel (hs'.trans hes.symm)
+  · intro e he
+    exact List.mem_range.mp (hperm.mem_iff.mp (List.mem_map_of_mem (f := (·.slot)) he))
